@@ -4,7 +4,7 @@ from . import common
 
 TB = ["modelled, not verified: each libc call is atomic; rename atomically replaces the entry; a killed process takes no further step; fs::copy = one complete copy into the staging file (Model/BisyncSteps.v FData); real durability (what survives power loss) is represented only by the fsync-before-rename ordering obligation - process kills are executed for real",
       "interpose/libvpsched.c: logging mode gives the ordered list of mutating calls of an uninterrupted run (compared with the model's step list); KILL_AT mode kills the process immediately before its k-th mutating call",
-      "recovery (re-running bisync after a crash) is proved only in the partial form stated in Props/C08.v; it is executed for EVERY kill point by the tie (re-run up to three times, compared with the uninterrupted result)"]
+      "recovery (re-running bisync after a crash) is proved from the live names and the archive of the crash state (Props/C08.v section 5 and 6: two re-runs always suffice under HashOk/Fresh); staging files are not part of that state - re-runs with a leftover staging file are executed for EVERY kill point by the tie (re-run up to three times, compared with the uninterrupted result), not proved"]
 
 
 def run(prop, tier, seed, replay):
